@@ -64,6 +64,29 @@ func generate(run func(string, bool) string, rng *xvlib.Rng, full bool, out *xvl
 			run(fmt.Sprintf("cmx|%s|%s|%s|%d", r, env2, methAlphabet, k), true)
 		}
 	}
+	// 1b. lookup faults on the small universe: the nested account, the root, a key or the method rule cannot be read
+	nFault := 150
+	if full {
+		nFault = 3000
+	}
+	for i := 0; i < nFault; i++ {
+		r := roots[rng.Intn(len(roots))]
+		n := nested[rng.Intn(len(nested))]
+		e := fmt.Sprintf("E%d", rng.Intn(4))
+		k := 2 + rng.Intn(2)
+		switch rng.Intn(5) {
+		case 0:
+			run(fmt.Sprintf("idx|a0|a0=%s a1=%s|%s|%d", r, e, accAlphabet, k), true)
+		case 1:
+			run(fmt.Sprintf("idx|a0|a0=%s a1=%s|%s|%d", e, n, accAlphabet, k), true)
+		case 2:
+			run(fmt.Sprintf("idx|a0|a0=%s a1=%s k%d=%s|%s|%d", r, n, rng.Intn(3), e, accAlphabet, k), true)
+		case 3:
+			run(fmt.Sprintf("cmx|%s|a1=%s a0=N|%s|%d", e, n, methAlphabet, k), true)
+		default:
+			run(fmt.Sprintf("cmx|%s|a1=%s a0=%s|%s|%d", r, e, a0rules[i%len(a0rules)], methAlphabet, k), true)
+		}
+	}
 	// 2. random larger cases: up to 4 accounts x 5 keys, depth <= 4, negative weights, up to 7 URIs, shuffled
 	nRand := 20000
 	if full {
@@ -82,9 +105,12 @@ func generate(run func(string, bool) string, rng *xvlib.Rng, full bool, out *xvl
 		nRW = 60000
 	}
 	generateRW(run, rng, nRW, out)
+	// 4. end to end: State.VerifyTx of a real node on signed transactions (token inputs of several owners in every
+	// order, the kernel's SetAccountAcl / NewAccount / SetMethodAcl, a contract call), with read faults
+	nCfg, nVtx := generateVtx(run, rng, full, out)
 	out.Stats.Exhaustive = full
-	out.Stats.Rule = fmt.Sprintf("exhaustive part: account a0 (and a method) with every rule out of %d (threshold: weights {0,1/4,1/2,1} on k0,k1,k2 and on the nested account a1, thresholds {1/4,1/2,1,3/2}; key sets: every family of <= 2 subsets of the 4 members incl. the empty set) x %d rules of the nested account x ALL multisets of size <= k over a %d-URI alphabet (direct keys, keys below the nested account, other account's signer, keys below a key, self nesting, account as last component); thorough: k=4 for every pair; quick: the weight of k2 is restricted to {0,1/2} and pairs of key sets leave out k2, k=2 for every pair, k=4 for %d and k=3 for %d seeded pairs. Plus %d random cases (<=4 accounts, <=5 keys, depth <=4, weights in -1/4..1, <=7 URIs) and %d random verifyRWSetPermission cases. Each multiset is one case; cases are distinct by construction (rule pair x multiset); non-trivial = at least one URI.",
-		len(roots), len(nested), len(strings.Fields(accAlphabet)), pairsK4, pairsK3, nRand, nRW)
+	out.Stats.Rule = fmt.Sprintf("exhaustive part: account a0 (and a method) with every rule out of %d (threshold: weights {0,1/4,1/2,1} on k0,k1,k2 and on the nested account a1, thresholds {1/4,1/2,1,3/2}; key sets: every family of <= 2 subsets of the 4 members incl. the empty set) x %d rules of the nested account x ALL multisets of size <= k over a %d-URI alphabet (direct keys, keys below the nested account, other account's signer, keys below a key, self nesting, account as last component); thorough: k=4 for every pair; quick: the weight of k2 is restricted to {0,1/2} and pairs of key sets leave out k2, k=2 for every pair, k=4 for %d and k=3 for %d seeded pairs. Plus %d random cases (<=4 accounts, <=5 keys, depth <=4, weights in -1/4..1, <=7 URIs) and %d random verifyRWSetPermission cases; %d lookup-fault lines on the small universe (the nested account, the root, a key or the method rule answers an error; random cases carry such entries with probability 1/8); %d end-to-end State.VerifyTx cases on %d chains (real node: confirmed rules, pending rule changes / owner entries in the pool, signed transactions with <= 4 token inputs of keys and accounts in every order, account initiators, signatures that do not verify, SetAccountAcl / NewAccount / SetMethodAcl / a contract call pre-executed like a client does; one third with a read fault: I/O error on the rule's version pointer, evicted pending writer, error of four texts from the snapshot reader). Each multiset is one case; cases are distinct by construction (rule pair x multiset); non-trivial = at least one URI.",
+		len(roots), len(nested), len(strings.Fields(accAlphabet)), pairsK4, pairsK3, nRand, nRW, nFault, nVtx, nCfg)
 }
 
 func randName(rng *xvlib.Rng, acct bool) string {
@@ -137,6 +163,22 @@ func randEnv(rng *xvlib.Rng) string {
 			es = append(es, fmt.Sprintf("a%d=%s", a, randRule(rng)))
 		}
 	}
+	// a lookup that answers an error (account or key)
+	if rng.Chance(1, 8) {
+		e := fmt.Sprintf("E%d", rng.Intn(4))
+		if rng.Chance(1, 4) {
+			es = append(es, fmt.Sprintf("k%d=%s", rng.Intn(5), e))
+		} else {
+			a := rng.Intn(4)
+			var keep []string
+			for _, x := range es {
+				if !strings.HasPrefix(x, fmt.Sprintf("a%d=", a)) {
+					keep = append(keep, x)
+				}
+			}
+			es = append(keep, fmt.Sprintf("a%d=%s", a, e))
+		}
+	}
 	return strings.Join(es, " ")
 }
 
@@ -171,5 +213,9 @@ func randomCase(rng *xvlib.Rng) string {
 		root := randName(rng, true)
 		return fmt.Sprintf("ida|%s|%s|%s", root, randEnv(rng), randURIs(rng, root))
 	}
-	return fmt.Sprintf("cmp|%s|%s|%s", randRule(rng), randEnv(rng), randURIs(rng, ""))
+	r := randRule(rng)
+	if rng.Chance(1, 40) {
+		r = fmt.Sprintf("E%d", rng.Intn(4))
+	}
+	return fmt.Sprintf("cmp|%s|%s|%s", r, randEnv(rng), randURIs(rng, ""))
 }
